@@ -932,7 +932,17 @@ func leavesOnly(b *ssa.BasicBlock, body map[*ssa.BasicBlock]bool) bool {
 			return false
 		}
 		if n.b != b && loopBody(n.b) != nil && sameLoop(n.b, body) {
-			back = true // back to the header
+			// back at the header: with the loop flag cleared on the way (`more = false; continue`) the
+			// header can only leave - that is leaving, one block later
+			stays := len(n.b.Succs) != 2
+			for j, s2 := range n.b.Succs {
+				if body[s2] && n.feasibleEdge(j) {
+					stays = true
+				}
+			}
+			if stays {
+				back = true
+			}
 			return false
 		}
 		return true
